@@ -167,6 +167,10 @@ fn horizon(g: &Grid) -> u64 {
 pub fn run(tier: Tier) -> i32 {
     let mut rep = Reporter::new("C02", tier, "model_checking");
     let gs = grid(tier);
+    for g in gs.iter().step_by(gs.len() / 6 + 1) {
+        assert_deterministic(&spec_of(g, 60, (6, 12)), &[], &[], SEC / 4);
+        assert_deterministic(&spec_of(g, 60, (6, 12)), &[], &[(5, 1)], SEC / 4);
+    }
     let k = tier.pick(1, 2);
     if std::env::var("C02_CALIBRATE").is_ok() {
         let rows: Vec<String> = grid(Tier::Thorough)
